@@ -15,6 +15,27 @@
 //!   default TTL (an item is not yet expired when the next item of the same call is put, which
 //!   the TTL classes of the model cannot express).
 //!
+//! Values (`hex` above) may also be written `g<len>:<seed>` followed by `^<pos>:<xx>` edits: the
+//! generated payload (byte i = `gen_byte(seed, i)`, the same definition in the Lean driver) with
+//! byte `pos` xor-ed with `xx`; a truncation / extension of a generated payload is the same seed
+//! with another length. Values longer than 64 bytes are ANSWERED as `#<len>:<fnv-1a 64>` on both
+//! sides (`val …`, items of `vals …`), so payloads of hundreds of KiB cost a few bytes of request
+//! and response text; the oracle always sees the full bytes.
+//!
+//! Payload-size family (`payload_family`): validation has to depend on EVERY byte of the payload at
+//! EVERY length. For payload lengths around the MD5 block / padding boundaries, every power of two,
+//! multiples of 4 KiB and of 64 KiB (len-1, len, len+1) up to 256 KiB and beyond, with MD5 and NGDP
+//! hooks over memory and disk layers: the valid payload must be accepted by put_with_validation
+//! and served unchanged by get_with_validation from the memory layer and from the disk layer; a
+//! payload with one flipped bit in the first / middle / last byte, in the first byte of the last
+//! 64 KiB block, truncated by a byte / by a block, extended by a byte / by a block, or empty must
+//! be refused by put_with_validation, reported as corruption by get_with_validation (disk file
+//! changed behind the cache, unvalidated put into the first layer) and not served afterwards.
+//! The lengths the property's boundary set names are run through the request stream (K and O);
+//! the dense sweep runs the same scripts on the real code under the oracle only (`silent` cases:
+//! no request lines; a failure carries the full replay) because the model's RFC 1321 MD5 costs
+//! ~0.3 s per 256 KiB in the compiled driver.
+//!
 //! Every real call runs on a worker thread that owns the tokio runtime and the cache; the main
 //! thread waits for the answer with a deadline (WATCHDOG). A call that does not answer is the
 //! observable `timeout`; the worker is abandoned (it is blocked inside std's RwLock) and the rest
@@ -40,7 +61,8 @@ use cascette_cache::traits::{AsyncCache, EvictionPolicy, MultiLayerCache};
 use cascette_cache::validation::{Md5ValidationHooks, NgdpValidationHooks, NoOpValidationHooks, ValidationHooks, ValidationResult};
 use cascette_cache::{CacheError, CacheResult, MultiLayerCacheImpl};
 use cascette_crypto::ContentKey;
-use std::collections::{BTreeMap, BTreeSet};
+use std::cell::RefCell;
+use std::collections::{BTreeMap, BTreeSet, HashMap};
 use std::future::Future;
 use std::path::PathBuf;
 use std::pin::Pin;
@@ -177,6 +199,122 @@ fn hooks(kind: &str) -> Option<Arc<dyn ValidationHooks>> {
 
 fn key(n: usize) -> RibbitKey { RibbitKey::new(format!("k{n}"), "us") }
 
+// ---------------------------------------------------------------- generated payloads
+
+/// values longer than this are answered as `#<len>:<fnv64>` and written as `g…` tokens when known
+const ABBREV: usize = 64;
+const GEN_MAX_LEN: usize = 1 << 28;
+const GEN_MAX_SEED: u64 = 1 << 32;
+
+fn fnv64(b: &[u8]) -> u64 {
+    let mut h = 0xcbf2_9ce4_8422_2325u64;
+    for x in b {
+        h ^= *x as u64;
+        h = h.wrapping_mul(0x0000_0100_0000_01b3);
+    }
+    h
+}
+
+/// byte `i` of the generated payload with seed `seed` (Lean: `genByte`)
+fn gen_byte(seed: u64, i: usize) -> u8 {
+    // only bits 16..23 of the sum are used: wrapping 64-bit arithmetic gives the same byte
+    ((i as u64).wrapping_mul(2_654_435_761).wrapping_add(seed.wrapping_mul(2_246_822_519)).wrapping_add(374_761_393) >> 16) as u8
+}
+
+/// `g<len>:<seed>[^<pos>:<xx>]…`
+#[derive(Clone, Debug, PartialEq)]
+struct GVal { len: usize, seed: u64, edits: Vec<(usize, u8)> }
+
+impl GVal {
+    fn new(len: usize, seed: u64) -> GVal { GVal { len, seed, edits: vec![] } }
+    fn bytes(&self) -> Vec<u8> {
+        let mut v: Vec<u8> = (0..self.len).map(|i| gen_byte(self.seed, i)).collect();
+        for (p, x) in &self.edits { v[*p] ^= *x; }
+        v
+    }
+    fn token(&self) -> String {
+        let mut t = format!("g{}:{}", self.len, self.seed);
+        for (p, x) in &self.edits { t.push_str(&format!("^{p}:{x:02x}")); }
+        t
+    }
+    fn parse(t: &str) -> Option<GVal> {
+        let mut parts = t.strip_prefix('g')?.split('^');
+        let (l, sd) = parts.next()?.split_once(':')?;
+        let (len, seed) = (l.parse::<usize>().ok()?, sd.parse::<u64>().ok()?);
+        if len > GEN_MAX_LEN || seed >= GEN_MAX_SEED { return None; }
+        let mut edits = vec![];
+        for e in parts {
+            let (p, x) = e.split_once(':')?;
+            let (p, x) = (p.parse::<usize>().ok()?, unhex(x)?);
+            if p >= len || x.len() != 1 { return None; }
+            edits.push((p, x[0]));
+        }
+        Some(GVal { len, seed, edits })
+    }
+    /// the same payload with byte `pos` xor-ed with `mask`
+    fn flip(&self, pos: usize, mask: u8) -> GVal { let mut g = self.clone(); g.edits.push((pos, mask)); g }
+    /// the same payload truncated / extended to `len` bytes
+    fn resized(&self, len: usize) -> GVal { GVal { len, seed: self.seed, edits: self.edits.iter().copied().filter(|(p, _)| *p < len).collect() } }
+}
+
+thread_local! {
+    /// (length, fnv64) of every long generated payload made or parsed on this (the main) thread →
+    /// its description, so that request lines and messages can name it by its token
+    static REG: RefCell<HashMap<(usize, u64), GVal>> = RefCell::new(HashMap::new());
+}
+
+/// the bytes of a generated payload; long ones are remembered under their token
+fn reg(g: &GVal) -> Vec<u8> {
+    let b = g.bytes();
+    if b.len() > ABBREV { REG.with(|r| r.borrow_mut().insert((b.len(), fnv64(&b)), g.clone())); }
+    b
+}
+
+fn gval_of(v: &[u8]) -> Option<GVal> {
+    if v.len() <= ABBREV { return None; }
+    REG.with(|r| r.borrow().get(&(v.len(), fnv64(v))).cloned())
+}
+
+/// a value as it is written on a request line
+fn tok(v: &[u8]) -> String { gval_of(v).map_or_else(|| hex(v), |g| g.token()) }
+
+/// a value as it is written in a message
+fn show_v(v: &[u8]) -> String {
+    if v.len() <= ABBREV { hex(v) } else { format!("#{}:{:016x}{}", v.len(), fnv64(v), gval_of(v).map_or(String::new(), |g| format!(" (= {})", g.token()))) }
+}
+
+fn parse_val(t: &str) -> Option<Vec<u8>> {
+    if t.starts_with('g') { GVal::parse(t).map(|g| reg(&g)) } else { unhex(t) }
+}
+
+/// `v` with one bit flipped / with another length, keeping the token when `v` is a generated payload
+fn flipped(v: &[u8], pos: usize, mask: u8) -> Vec<u8> {
+    match gval_of(v) {
+        Some(g) => reg(&g.flip(pos, mask)),
+        None => { let mut b = v.to_vec(); b[pos] ^= mask; b }
+    }
+}
+fn resized(v: &[u8], len: usize) -> Vec<u8> {
+    match gval_of(v) {
+        Some(g) => reg(&g.resized(len)),
+        None => { let mut b = v.to_vec(); let n0 = b.len(); b.resize(len, 0); for i in n0..len { b[i] = (i as u8).wrapping_mul(29).wrapping_add(7); } b }
+    }
+}
+
+/// hex of an answered value → what is compared with the model (`#<len>:<fnv64>` when long)
+fn abbr(h: &str) -> String {
+    if h.len() <= 2 * ABBREV { return h.to_string(); }
+    match unhex(h) { Some(b) => format!("#{}:{:016x}", b.len(), fnv64(&b)), None => h.to_string() }
+}
+
+/// the canonical (compared) form of an answer
+fn canon(resp: &str) -> String {
+    if resp.len() <= 2 * ABBREV { return resp.to_string(); }
+    if let Some(h) = resp.strip_prefix("val ") { return format!("val {}", abbr(h)); }
+    if let Some(t) = resp.strip_prefix("vals ") { return format!("vals {}", t.split('|').map(abbr).collect::<Vec<_>>().join("|")); }
+    resp.to_string()
+}
+
 // ---------------------------------------------------------------- operations
 
 #[derive(Clone, Debug, PartialEq)]
@@ -213,9 +351,9 @@ fn parse_op(line: &str) -> Op {
     }
     let n = |s: &str| s.parse::<usize>().ok();
     let r = match toks.as_slice() {
-        ["put", k, v] => n(k).zip(unhex(v)).map(|(k, v)| Op::Put(k, v)),
-        ["putttl", k, v, c] if *c == "short" || *c == "long" => n(k).zip(unhex(v)).map(|(k, v)| Op::PutTtl(k, v, *c == "short")),
-        ["putl", k, v, i] => n(k).zip(unhex(v)).zip(n(i)).map(|((k, v), i)| Op::PutL(k, v, i)),
+        ["put", k, v] => n(k).zip(parse_val(v)).map(|(k, v)| Op::Put(k, v)),
+        ["putttl", k, v, c] if *c == "short" || *c == "long" => n(k).zip(parse_val(v)).map(|(k, v)| Op::PutTtl(k, v, *c == "short")),
+        ["putl", k, v, i] => n(k).zip(parse_val(v)).zip(n(i)).map(|((k, v), i)| Op::PutL(k, v, i)),
         ["get", k] => n(k).map(Op::Get),
         ["getl", k, i] => n(k).zip(n(i)).map(|(k, i)| Op::GetL(k, i)),
         ["promote", k, a, b] => n(k).zip(n(a)).zip(n(b)).map(|((k, a), b)| Op::Promote(k, a, b)),
@@ -223,13 +361,13 @@ fn parse_op(line: &str) -> Op {
         ["clear"] => Some(Op::Clear),
         ["bget", ks] => if *ks == "-" { Some(Op::BGet(vec![])) } else { ks.split(',').map(n).collect::<Option<Vec<_>>>().map(Op::BGet) },
         ["bput", kvs] => if *kvs == "-" { Some(Op::BPut(vec![])) } else {
-            kvs.split(',').map(|t| { let (k, v) = t.split_once('=')?; if v.contains('=') { return None; } n(k).zip(unhex(v)) }).collect::<Option<Vec<_>>>().map(Op::BPut)
+            kvs.split(',').map(|t| { let (k, v) = t.split_once('=')?; if v.contains('=') { return None; } n(k).zip(parse_val(v)) }).collect::<Option<Vec<_>>>().map(Op::BPut)
         },
-        ["putv", k, ck, v] => n(k).zip(ck_of(ck)).zip(unhex(v)).map(|((k, ck), v)| Op::PutV(k, ck, v)),
+        ["putv", k, ck, v] => n(k).zip(ck_of(ck)).zip(parse_val(v)).map(|((k, ck), v)| Op::PutV(k, ck, v)),
         ["getv", k, ck] => if *ck == "-" { n(k).map(|k| Op::GetV(k, None)) } else { n(k).zip(ck_of(ck)).map(|(k, c)| Op::GetV(k, Some(c))) },
         ["stats"] => Some(Op::Stats),
         ["fdel", i, k] => n(i).zip(n(k)).map(|(i, k)| Op::FDel(i, k)),
-        ["fset", i, k, v] => n(i).zip(n(k)).zip(unhex(v)).map(|((i, k), v)| Op::FSet(i, k, v)),
+        ["fset", i, k, v] => n(i).zip(n(k)).zip(parse_val(v)).map(|((i, k), v)| Op::FSet(i, k, v)),
         ["skipprobe", l] => n(l).map(Op::SkipProbe),
         _ => None,
     };
@@ -238,21 +376,21 @@ fn parse_op(line: &str) -> Op {
 
 fn op_line(op: &Op) -> String {
     match op {
-        Op::Put(k, v) => format!("put {k} {}", hex(v)),
-        Op::PutTtl(k, v, s) => format!("putttl {k} {} {}", hex(v), if *s { "short" } else { "long" }),
-        Op::PutL(k, v, i) => format!("putl {k} {} {i}", hex(v)),
+        Op::Put(k, v) => format!("put {k} {}", tok(v)),
+        Op::PutTtl(k, v, s) => format!("putttl {k} {} {}", tok(v), if *s { "short" } else { "long" }),
+        Op::PutL(k, v, i) => format!("putl {k} {} {i}", tok(v)),
         Op::Get(k) => format!("get {k}"),
         Op::GetL(k, i) => format!("getl {k} {i}"),
         Op::Promote(k, a, b) => format!("promote {k} {a} {b}"),
         Op::Remove(k) => format!("remove {k}"),
         Op::Clear => "clear".into(),
         Op::BGet(ks) => format!("bget {}", if ks.is_empty() { "-".to_string() } else { ks.iter().map(|k| k.to_string()).collect::<Vec<_>>().join(",") }),
-        Op::BPut(kvs) => format!("bput {}", if kvs.is_empty() { "-".to_string() } else { kvs.iter().map(|(k, v)| format!("{k}={}", hex(v))).collect::<Vec<_>>().join(",") }),
-        Op::PutV(k, ck, v) => format!("putv {k} {} {}", hex(ck), hex(v)),
+        Op::BPut(kvs) => format!("bput {}", if kvs.is_empty() { "-".to_string() } else { kvs.iter().map(|(k, v)| format!("{k}={}", tok(v))).collect::<Vec<_>>().join(",") }),
+        Op::PutV(k, ck, v) => format!("putv {k} {} {}", hex(ck), tok(v)),
         Op::GetV(k, ck) => format!("getv {k} {}", ck.map_or("-".to_string(), |c| hex(&c))),
         Op::Stats => "stats".into(),
         Op::FDel(i, k) => format!("fdel {i} {k}"),
-        Op::FSet(i, k, v) => format!("fset {i} {k} {}", hex(v)),
+        Op::FSet(i, k, v) => format!("fset {i} {k} {}", tok(v)),
         Op::SkipProbe(l) => format!("skipprobe {l}"),
         Op::Raw(l) => l.clone(),
     }
@@ -583,6 +721,9 @@ struct Case {
     /// (layer, key) that may be stored with an ended TTL and was not read since (bookkeeping of the
     /// victims observation only; a wrong entry costs coverage, never correctness)
     unswept: BTreeSet<(usize, usize)>,
+    /// oracle-only case: the calls run on the real cache under the oracle, no request lines are
+    /// written (the model is not asked); a failure carries the whole script as its replay
+    silent: bool,
 }
 
 fn temp_root() -> tempfile::TempDir {
@@ -598,9 +739,11 @@ fn temp_root() -> tempfile::TempDir {
 fn md5_of(v: &[u8]) -> [u8; 16] { md5::compute(v).0 }
 
 impl Case {
-    fn begin(s: &mut Session, line: &str) -> Case {
+    fn begin(s: &mut Session, line: &str) -> Case { Case::begin_mode(s, line, false) }
+
+    fn begin_mode(s: &mut Session, line: &str, silent: bool) -> Case {
         let toks: Vec<&str> = line.split(' ').filter(|t| !t.is_empty()).collect();
-        let mut c = Case { cfg: None, worker: None, _root: None, sh: None, lines: vec![], reported: BTreeSet::new(), nontrivial: BTreeSet::new(), timeouts: 0, keys: BTreeSet::new(), unswept: BTreeSet::new() };
+        let mut c = Case { cfg: None, worker: None, _root: None, sh: None, lines: vec![], reported: BTreeSet::new(), nontrivial: BTreeSet::new(), timeouts: 0, keys: BTreeSet::new(), unswept: BTreeSet::new(), silent };
         match Cfg::parse(&toks) {
             Ok(cfg) => {
                 let root = temp_root();
@@ -623,7 +766,7 @@ impl Case {
     }
 
     fn emit(&mut self, s: &mut Session, req: String, resp: String) {
-        s.line(&req, &resp);
+        if !self.silent { s.line(&req, &canon(&resp)); }
         self.lines.push(req);
     }
 
@@ -647,15 +790,15 @@ impl Case {
             match (e, got) {
                 (Some((_, v)), Some(g)) if v[..] == *g => {}
                 (None, None) => {}
-                (Some((i, v)), None) => fails.push(("ml-lost-value".into(), format!("{what} -> none although layer {i} holds {} for the key and no faster layer holds it", hex(v)))),
+                (Some((i, v)), None) => fails.push(("ml-lost-value".into(), format!("{what} -> none although layer {i} holds {} for the key and no faster layer holds it", show_v(v)))),
                 (Some((i, v)), Some(g)) => {
                     let lower = (0..sh.nlayers).any(|j| j > *i && sh.know(j, k) == Know::Holds(g.to_vec()));
                     let sig = if lower { "ml-wrong-layer-order" } else { "ml-foreign-value" };
-                    fails.push((sig.into(), format!("{what} -> {} although layer {i}, the first that holds the key, holds {}", hex(g), hex(v))));
+                    fails.push((sig.into(), format!("{what} -> {} although layer {i}, the first that holds the key, holds {}", show_v(g), show_v(v))));
                 }
                 (None, Some(g)) => {
                     let sig = if sh.removed.contains(&k) { "ml-served-after-remove" } else if sh.dropped.contains(&k) { "ml-corrupt-served-later" } else { "ml-phantom-value" };
-                    fails.push((sig.into(), format!("{what} -> {} although no layer holds the key", hex(g))));
+                    fails.push((sig.into(), format!("{what} -> {} although no layer holds the key", show_v(g))));
                 }
             }
         }
@@ -672,11 +815,11 @@ impl Case {
                 } else if let (false, Some(ll)) = (older.is_empty(), ll) {
                     // an older value of the same key, left in another layer, while the latest put went to layer `ll`
                     let sig = if older.iter().any(|ol| *ol > ll) { "ml-stale-lower-layer" } else if older.iter().any(|ol| *ol < ll) { "ml-stale-shadowed-by-upper-layer" } else { "ml-replaced-value-served" };
-                    fails.push((sig.into(), format!("{what} -> {} which is an older value of the key, written to layer(s) {older:?}; the latest put ({}) went to layer {ll}", hex(g), latest.as_ref().map_or("expired".to_string(), |v| hex(v)))));
+                    fails.push((sig.into(), format!("{what} -> {} which is an older value of the key, written to layer(s) {older:?}; the latest put ({}) went to layer {ll}", show_v(g), latest.as_ref().map_or("expired".to_string(), |v| show_v(v)))));
                 } else if sh.removed.contains(&k) {
-                    if !fails.iter().any(|f| f.0 == "ml-served-after-remove") { fails.push(("ml-served-after-remove".into(), format!("{what} -> {} after remove/clear", hex(g)))); }
+                    if !fails.iter().any(|f| f.0 == "ml-served-after-remove") { fails.push(("ml-served-after-remove".into(), format!("{what} -> {} after remove/clear", show_v(g)))); }
                 } else if !fails.iter().any(|f| f.0 == "ml-phantom-value" || f.0 == "ml-foreign-value" || f.0 == "ml-corrupt-served-later") {
-                    fails.push(("ml-foreign-value".into(), format!("{what} -> {} which was never put for this key", hex(g))));
+                    fails.push(("ml-foreign-value".into(), format!("{what} -> {} which was never put for this key", show_v(g))));
                 }
             } else {
                 s.tally("read.latest");
@@ -754,6 +897,14 @@ impl Case {
             return "bad-op".into();
         }
         self.keys.extend(Case::op_keys(op));
+        let lens: Vec<usize> = match op {
+            Op::Put(_, v) | Op::PutTtl(_, v, _) | Op::PutL(_, v, _) | Op::PutV(_, _, v) | Op::FSet(_, _, v) => vec![v.len()],
+            Op::BPut(kvs) => kvs.iter().map(|(_, v)| v.len()).collect(),
+            _ => vec![],
+        };
+        for l in lens {
+            s.tally(&format!("value.len.{}{}", match l { 0 => "0", 1..=64 => "1-64", 65..=4095 => "65-4095", 4096..=65534 => "4096-65534", 65535..=262145 => "65535-262145", _ => "above-262145" }, if self.silent { ".oracle-only" } else { "" }));
+        }
         // ---- victims of an Lfu / Random layer are observed, not computed
         struct Obs { layer: usize, key: usize, before: Vec<usize>, unobserved: Option<usize>, n_ev: usize, target: usize }
         let mut obs: Option<Obs> = None;
@@ -938,7 +1089,7 @@ impl Case {
                     (Some(g), _) => {
                         if let (Some(v), Some(ck), true) = (&g, ock, checking) {
                             if v.len() <= SKIP_ABOVE && md5_of(v) != *ck {
-                                self.fail(s, "ml-validation-unsound", format!("{line} -> {} which does not hash to the content key", hex(v)));
+                                self.fail(s, "ml-validation-unsound", format!("{line} -> {} which does not hash to the content key", show_v(v)));
                             }
                             s.tally("getv.validated");
                         }
@@ -996,7 +1147,7 @@ impl Case {
                             self.nontrivial.insert("promotion");
                         }
                         "false" => {
-                            if a > b { if let Know::Holds(v) = src { self.fail(s, "ml-lost-value", format!("{line} -> false although layer {a} holds {}", hex(&v))); } }
+                            if a > b { if let Know::Holds(v) = src { self.fail(s, "ml-lost-value", format!("{line} -> false although layer {a} holds {}", show_v(&v))); } }
                         }
                         "err:io" if !cfg.layers[*a].is_mem() => { sh.cell.insert((*a, *k), Know::Absent); }
                         _ => self.fail(s, "ml-get-error", format!("{line} -> {resp}")),
@@ -1101,6 +1252,12 @@ fn gen_cfg(rng: &mut Rng) -> Cfg {
 
 fn value(rng: &mut Rng, seq: &mut u32) -> Vec<u8> {
     *seq += 1;
+    // now and then a longer, generated payload: MD5 block / padding boundaries, 4 KiB multiples,
+    // rarely the 64 KiB boundary (unique per write: the sequence number is the seed)
+    if rng.chance(1, 32) {
+        let len = if rng.chance(1, 24) { *rng.pick(&[65535usize, 65536, 65537]) } else { *rng.pick(&[55usize, 56, 57, 63, 64, 65, 66, 119, 120, 121, 127, 128, 129, 255, 256, 1000, 4095, 4096, 4097, 8192, 12288]) };
+        return reg(&GVal::new(len, *seq as u64));
+    }
     let n = match rng.below(10) { 0 => 0, 1 => 1, 2 => 2, 3 => 31, _ => rng.range(3, 14) as usize };
     let mut v: Vec<u8> = (0..n).map(|i| (i as u8).wrapping_mul(13).wrapping_add(*seq as u8)).collect();
     // unique per write whenever there is room: the sequence number leads
@@ -1159,11 +1316,12 @@ fn gen_case(rng: &mut Rng, s: &mut Session, nops: usize) -> u32 {
             _ => {
                 let i = if rng.chance(1, 10) { rng.below(n as u64) as usize } else { *rng.pick(&disk_layers) };
                 if rng.chance(1, 2) { Op::FDel(i, k) } else {
-                    // corruption: flip a bit of what the generator believes is stored, truncate it, or foreign bytes
+                    // corruption: flip a bit of what the generator believes is stored, truncate it, extend it, or foreign bytes
                     let base = last.get(&k).cloned().unwrap_or_default();
-                    let v = match rng.below(3) {
-                        0 if !base.is_empty() => { let mut b = base.clone(); let p = rng.below(b.len() as u64) as usize; b[p] ^= 1 << rng.below(8); b }
-                        1 if !base.is_empty() => base[..base.len() - 1].to_vec(),
+                    let v = match rng.below(4) {
+                        0 if !base.is_empty() => { let p = rng.below(base.len() as u64) as usize; flipped(&base, p, 1 << rng.below(8)) }
+                        1 if !base.is_empty() => resized(&base, base.len() - 1),
+                        2 => resized(&base, base.len() + *rng.pick(&[1usize, 1, 64])),
                         _ => value(rng, &mut seq),
                     };
                     Op::FSet(i, k, v)
@@ -1295,6 +1453,178 @@ fn expired_at_capacity_family(s: &mut Session, budget: u32) -> u32 {
     t
 }
 
+
+// ---------------------------------------------------------------- payload-size family
+
+const BLOCK: usize = 64 * 1024;
+
+/// the damaged variants of the generated payload `g`: (name, payload)
+fn variants(g: &GVal, rng: &mut Rng) -> Vec<(&'static str, GVal)> {
+    let n = g.len;
+    let mut bit = || 1u8 << rng.below(8);
+    let mut v: Vec<(&'static str, GVal)> = vec![];
+    if n >= 1 {
+        v.push(("flip-last-byte", g.flip(n - 1, bit())));
+        v.push(("flip-first-byte", g.flip(0, bit())));
+        v.push(("truncated-1", g.resized(n - 1)));
+    }
+    v.push(("extended-1", g.resized(n + 1)));
+    if n >= 3 { v.push(("flip-middle-byte", g.flip(n / 2, bit()))); }
+    if n > BLOCK {
+        v.push(("flip-first-byte-of-last-64k-block", g.flip((n - 1) / BLOCK * BLOCK, bit())));
+        v.push(("truncated-64k", g.resized(n - BLOCK)));
+    }
+    if n >= 4096 { v.push(("extended-64k", g.resized(n + BLOCK))); }
+    if n > 64 {
+        v.push(("flip-first-byte-of-last-md5-block", g.flip((n - 1) / 64 * 64, bit())));
+        v.push(("truncated-64", g.resized(n - 64)));
+    }
+    v.push(("extended-64", g.resized(n + 64)));
+    if n >= 1 { v.push(("empty", GVal::new(0, g.seed))); }
+    v
+}
+
+#[derive(Clone, Copy, PartialEq)]
+enum Depth {
+    /// every variant through every path
+    Full,
+    /// the valid payload through every path, every variant through one path (rotating, starting
+    /// with the number given)
+    Rotating(usize),
+    /// the valid payload through put and memory get or disk get, then one variant (picked by the
+    /// number given) as a changed disk file and through put_with_validation
+    Reduced(usize),
+    /// disk layer only: valid payload served, last byte flipped on disk refused and dropped
+    Minimal,
+}
+
+/// One payload length through the validated paths of one cache (`layers` must end in a disk layer):
+/// put_with_validation of the valid payload, get_with_validation from the first layer and from the
+/// disk layer, then damaged variants (A) offered to put_with_validation, (B) written over the disk
+/// layer's file behind the cache, (C) put unvalidated into the first layer, each followed by
+/// get_with_validation with the content key of the VALID payload and plain reads; the oracle of
+/// `judge` decides every answer (accepted / refused / served unchanged / dropped everywhere).
+fn payload_case(s: &mut Session, rng: &mut Rng, layers: &str, hooks: &str, strat: &str, len: usize, depth: Depth, silent: bool) -> u32 {
+    let line = format!("begin L={layers} strat={strat} hooks={hooks} skip={SKIP_ABOVE}");
+    let mut c = Case::begin_mode(s, &line, silent);
+    let Some(cfg) = c.cfg.clone() else { return c.finish(s) };
+    let dl = cfg.layers.len() - 1;
+    let g = GVal::new(len, rng.below(1000));
+    let v = reg(&g);
+    let ck = md5_of(&v);
+    s.tally(if silent { "payload.case.oracle-only" } else { "payload.case.k-compared" });
+    s.tally(&format!("payload.len.{}", match len { 0..=64 => "0-64", 65..=4095 => "65-4095", 4096..=65534 => "4096-65534", 65535..=262145 => "65535-262145", _ => "above-262145" }));
+    if len >= BLOCK - 1 && (len + 1) % BLOCK <= 2 { s.tally("payload.len.at-64k-multiple(-1,0,+1)"); }
+    let vs = variants(&g, rng);
+    let mut run = |c: &mut Case, s: &mut Session, op: Op| { if c.timeouts == 0 { c.apply(s, &op); } };
+    let damaged = |c: &mut Case, s: &mut Session, run: &mut dyn FnMut(&mut Case, &mut Session, Op), name: &str, w: &[u8], path: char| {
+        let w = w.to_vec();
+        s.tally(&format!("payload.variant.{name}.{}", match path { 'A' => "putv", 'B' => "disk-file-changed", _ => "unvalidated-put" }));
+        match path {
+            'A' => { run(c, s, Op::PutV(3, ck, w)); run(c, s, Op::Get(3)); }
+            'B' => {
+                run(c, s, Op::PutL(2, v.clone(), dl));
+                run(c, s, Op::FSet(dl, 2, w));
+                run(c, s, Op::GetV(2, Some(ck)));
+                run(c, s, Op::Get(2));
+                run(c, s, Op::GetL(2, dl));
+            }
+            _ => { run(c, s, Op::Put(4, w)); run(c, s, Op::GetV(4, Some(ck))); run(c, s, Op::Get(4)); }
+        }
+    };
+    match depth {
+        Depth::Minimal => {
+            run(&mut c, s, Op::PutL(2, v.clone(), dl));
+            run(&mut c, s, Op::GetV(2, Some(ck)));
+            if let Some((name, w)) = vs.first() { damaged(&mut c, s, &mut run, name, &reg(w), 'B'); }
+        }
+        Depth::Reduced(i) => {
+            run(&mut c, s, Op::PutV(1, ck, v.clone()));
+            if i % 2 == 0 { run(&mut c, s, Op::GetV(1, Some(ck))); }
+            run(&mut c, s, Op::Get(1));
+            if i % 2 == 1 { run(&mut c, s, Op::PutL(2, v.clone(), dl)); run(&mut c, s, Op::GetV(2, Some(ck))); }
+            if !vs.is_empty() {
+                let (name, w) = &vs[i % vs.len()];
+                let w = reg(w);
+                damaged(&mut c, s, &mut run, name, &w, 'B');
+                damaged(&mut c, s, &mut run, name, &w, 'A');
+            }
+        }
+        Depth::Full | Depth::Rotating(_) => {
+            run(&mut c, s, Op::PutV(1, ck, v.clone()));
+            run(&mut c, s, Op::GetV(1, Some(ck)));
+            run(&mut c, s, Op::Get(1));
+            run(&mut c, s, Op::PutL(2, v.clone(), dl));
+            run(&mut c, s, Op::GetV(2, Some(ck)));
+            for (j, (name, w)) in vs.iter().enumerate() {
+                let w = reg(w);
+                match depth {
+                    Depth::Rotating(i) => damaged(&mut c, s, &mut run, name, &w, ['B', 'A', 'C'][(i + j) % 3]),
+                    _ => for path in ['A', 'B', 'C'] { damaged(&mut c, s, &mut run, name, &w, path); },
+                }
+            }
+            // the valid payload is still accepted after all that
+            run(&mut c, s, Op::PutL(2, v.clone(), dl));
+            run(&mut c, s, Op::GetV(2, Some(ck)));
+            run(&mut c, s, Op::GetV(1, Some(ck)));
+            run(&mut c, s, Op::BGet(vec![1, 2, 3, 4]));
+        }
+    }
+    run(&mut c, s, Op::Stats);
+    c.finish(s)
+}
+
+/// The payload-size family (see the head of this file). Stops after `budget` calls that did not return.
+fn payload_family(s: &mut Session, rng: &mut Rng, thorough: bool, budget: u32) -> u32 {
+    let mut t = 0;
+    const LAYERS: [&str; 6] = [
+        "m:2:none:lru:long;d:long", "d:long;d:long", "m:1:none:fifo:long;d:long", "m:3:none:lru:long;m:4:none:fifo:long;d:long",
+        "m:2:none:ttl:long;d:long", "m:3:300000:lru:long;d:long",
+    ];
+    const STRATS: [&str; 4] = ["onhit", "after:2", "manual", "age"];
+    let mut i = 0usize;
+    let mut one = |s: &mut Session, rng: &mut Rng, len: usize, depth: Option<Depth>, silent: bool, t: &mut u32| {
+        if *t >= budget { return; }
+        let depth = depth.unwrap_or(Depth::Reduced(i));
+        *t += payload_case(s, rng, LAYERS[i % LAYERS.len()], if i % 3 == 2 { "ngdp" } else { "md5" }, STRATS[i % STRATS.len()], len, depth, silent);
+        i += 1;
+    };
+    // ---- through the request stream (K and O)
+    // MD5 block and padding boundaries, powers of two: every variant through every path
+    for len in [0usize, 1, 2, 55, 56, 57, 63, 64, 65, 119, 120, 121, 127, 128, 129, 255, 256, 257, 511, 512, 513, 1023, 1024, 1025, 2047, 2048, 2049] {
+        one(s, rng, len, Some(Depth::Full), false, &mut t);
+    }
+    // powers of two and multiples of 4 KiB below 64 KiB
+    for k in 12..=15 { for d in [-1i64, 0, 1] { one(s, rng, ((1i64 << k) + d) as usize, None, false, &mut t); } }
+    for m in [3usize, 5, 12] { for d in [-1i64, 0, 1] { one(s, rng, (m as i64 * 4096 + d) as usize, None, false, &mut t); } }
+    // len-1, len, len+1 at every multiple of 64 KiB up to 256 KiB (512 KiB and 1 MiB in the thorough tier)
+    let top = if thorough { 8 } else { 4 };
+    for j in 1..=top { for d in [-1i64, 0, 1] { one(s, rng, (j as i64 * BLOCK as i64 + d) as usize, None, false, &mut t); } }
+    if thorough { for d in [-1i64, 0, 1] { one(s, rng, ((1i64 << 20) + d) as usize, None, false, &mut t); } }
+    // a few random large ones: any length, a multiple of 4 KiB, a multiple of 64 KiB
+    for _ in 0..(if thorough { 6 } else { 1 }) {
+        let len = rng.range(BLOCK as u64 + 2, 300_000) as usize; one(s, rng, len, None, false, &mut t);
+        let len = rng.range(17, 64) as usize * 4096; one(s, rng, len, None, false, &mut t);
+        let len = rng.range(2, 4) as usize * BLOCK; one(s, rng, len, None, false, &mut t);
+    }
+    // ---- oracle only (the model is not asked): the dense sweep, every variant through every path
+    // length → depth; a later, deeper entry replaces an earlier one
+    let mut lens: BTreeMap<usize, Depth> = BTreeMap::new();
+    let (top4k, top64k, top_pow, n_rand, max_rand) = if thorough { (256usize, 32usize, 24u32, 60, 3_000_000u64) } else { (80, 8, 21, 10, 600_000) };
+    // every multiple of 4 KiB: the valid payload through every path and one variant (a wrong digest at
+    // a length shows as the valid payload refused; a validation that is skipped accepts any variant)
+    for m in 1..=top4k { lens.insert(m * 4096, Depth::Reduced(m)); }
+    for _ in 0..n_rand { let len = rng.range(2050, max_rand) as usize; lens.insert(len, if thorough || len <= 270_000 { Depth::Rotating(len) } else { Depth::Reduced(len) }); }
+    // powers of two and multiples of 64 KiB (-1, 0, +1): every variant, through every path up to 256 KiB
+    let deep = |len: usize| if len > 2_000_000 { Depth::Reduced(len) } else if thorough || len <= 270_000 { Depth::Full } else { Depth::Reduced(len) };
+    for k in 16..=top_pow { for d in [-1i64, 0, 1] { let len = ((1i64 << k) + d) as usize; lens.insert(len, deep(len)); } }
+    for j in 1..=top64k { for d in [-1i64, 0, 1] { let len = (j as i64 * BLOCK as i64 + d) as usize; lens.insert(len, deep(len)); } }
+    for (len, depth) in lens { one(s, rng, len, Some(depth), true, &mut t); }
+    // DiskCache::read_file switches to another read routine at 16 MiB
+    for len in [(16usize << 20) - 1, 16 << 20] { if t < budget { t += payload_case(s, rng, "m:2:none:lru:long;d:long", "md5", "onhit", len, Depth::Minimal, true); } }
+    t
+}
+
 fn main() {
     let args = Args::parse();
     quiet_panics();
@@ -1314,6 +1644,7 @@ fn main() {
     let random_only = args.extra.iter().any(|a| a == "--random-only");
     let mut timeouts = if random_only { 0 } else { directed(&mut s, args.thorough()) };
     if !random_only { timeouts += expired_at_capacity_family(&mut s, 4u32.saturating_sub(timeouts)); }
+    if !random_only { timeouts += payload_family(&mut s, &mut rng, args.thorough(), 4u32.saturating_sub(timeouts)); }
     let (cases, nops) = if args.thorough() { (4000, 90) } else { (350, 60) };
     for i in 0..cases {
         // a hanging build hangs on almost every history: a handful of witnesses is enough
